@@ -1,4 +1,5 @@
 import StepModel.GenPy
+import StepModel.GenPyBody
 /-! Driver for the exp2python emission model.  `m_c18 model` prints what exp2python emits (as modelled), `m_c18 spec`
 what the property asks for.  Input: schemas as blocks of lines
 
@@ -90,11 +91,97 @@ def render (useSpec : Bool) (s : Schema) : String :=
       ++ (s.entities.map (fun e => s!"props {pyName e.name}={showProps s.types e}"))
       ++ m.types.map (fun t => s!"type {t.name}={showBody true t.body}"))
 
+/-! ### `expr` lines: the body written for a derived attribute / WHERE rule
+
+    expr d|r LABEL|- INTS|- BOOLS|- ENVS|- TOKENS…      (ENVS: `3,0,t;1,2,f`, values in the order INTS then BOOLS;
+                                                          TOKENS: prefix form `i N | t | f | a NAME | s NAME | u not|neg X | b OP L R`)
+model reply:  ast=<tree Python reads | !syntax> name=<rule method name | - | !syntax> values=v;v;…
+spec reply:   values=v;v;…        (a rule: `true` or `!AssertionError`) -/
+namespace BodyDrv
+open StepModel.GenPy.Body
+
+def parseBin : String → Option BinOp
+  | "and" => some .and | "or" => some .or | "xor" => some .xor | "beq" => some .beq | "bne" => some .bne
+  | "eq" => some .eq | "ne" => some .ne | "lt" => some .lt | "le" => some .le | "gt" => some .gt | "ge" => some .ge
+  | "plus" => some .plus | "minus" => some .minus | "times" => some .times | _ => none
+
+/-- prefix tokens → (expression, rest); fuel = number of tokens -/
+def parseExpr : Nat → List String → Option (Expr × List String)
+  | 0, _ => none
+  | _ + 1, "i" :: n :: rest => n.toNat?.map (fun k => (.int k, rest))
+  | _ + 1, "t" :: rest => some (.tt, rest)
+  | _ + 1, "f" :: rest => some (.ff, rest)
+  | _ + 1, "a" :: n :: rest => some (.attr n, rest)
+  | _ + 1, "s" :: n :: rest => some (.selfAttr n, rest)
+  | f + 1, "u" :: op :: rest => do
+    let o ← (match op with | "not" => some UnOp.not | "neg" => some UnOp.neg | _ => none)
+    let (x, r) ← parseExpr f rest
+    pure (.un o x, r)
+  | f + 1, "b" :: op :: rest => do
+    let o ← parseBin op
+    let (l, r1) ← parseExpr f rest
+    let (r, r2) ← parseExpr f r1
+    pure (.bin o l r, r2)
+  | _, _ => none
+
+def showOp : PyOp → String
+  | .and => "and" | .or => "or" | .eq => "eq" | .ne => "ne" | .lt => "lt" | .le => "le" | .gt => "gt" | .ge => "ge"
+  | .plus => "plus" | .minus => "minus" | .times => "times"
+
+/-- `tail = true`: the node continues a chained comparison (no parentheses of its own) -/
+def dump (tail : Bool) : PyExpr → String
+  | .int n => s!"(int {n})"
+  | .name s => s!"(name {s})"
+  | .attr s => s!"(attr {s})"
+  | .un .not x => s!"(un not {dump false x})"
+  | .un .neg x => s!"(un neg {dump false x})"
+  | .bin op l r => if tail then s!"{dump false l} {showOp op} {dump false r}" else s!"(bin {showOp op} {dump false l} {dump false r})"
+  | .chain op l r =>
+    if tail then s!"{dump false l} {showOp op} {dump true r}" else s!"(chain {dump false l} {showOp op} {dump true r})"
+
+def showV : V → String
+  | .int i => toString i
+  | .bool true => "true"
+  | .bool false => "false"
+
+def parseV (s : String) : Option V :=
+  if s = "t" then some (.bool true) else if s = "f" then some (.bool false) else s.toInt?.map .int
+
+def names (s : String) : List String := if s = "-" then [] else s.splitOn ","
+
+def reply (useSpec : Bool) (kind label ints bools envs : String) (toks : List String) : Option String := do
+  let (e, rest) ← parseExpr (toks.length + 1) toks
+  if !rest.isEmpty then none
+  let attrs := names ints ++ names bools
+  let envL ← (if envs = "-" then some [] else (envs.splitOn ";").mapM (fun row => (row.splitOn ",").mapM parseV))
+  let envsV ← envL.mapM (fun row => if row.length = attrs.length then some (attrs.zip row) else none)
+  let isRule := kind = "r"
+  if useSpec then
+    let vals := envsV.map (fun env =>
+      if isRule then (match StepModel.GenPy.Spec.Body.rule env e with | some true => "true" | some false => "!AssertionError" | none => "?")
+      else (match StepModel.GenPy.Spec.Body.eval env e with | some v => showV v | none => "?"))
+    pure ("values=" ++ ";".intercalate vals)
+  else
+    let nm := if isRule then (if label = "-" then "-" else (match ruleNameWith cfg label with | some n => n | none => "!syntax")) else "-"
+    match read e with
+    | none => pure s!"ast=!syntax name={nm} values=-"
+    | some p =>
+      let vals := envsV.map (fun env =>
+        let inst := instanceOf env
+        if isRule then (match ruleRun inst p with | .returns v => showV v | .assertionError => "!AssertionError" | .raises => "!raise")
+        else (match pyEval inst p with | some v => showV v | none => "!raise"))
+      pure s!"ast={(dump false p).replace " " "_"} name={nm} values={";".intercalate vals}"
+
+end BodyDrv
+
 partial def loop (useSpec : Bool) (h : IO.FS.Stream) (out : IO.FS.Stream) (cur : Option Schema) (bad : Bool) : IO Unit := do
   let line ← h.getLine
   if line.isEmpty then return ()
   match (line.trimAscii.toString.splitOn " ").filter (· ≠ "") with
   | [] => loop useSpec h out cur bad
+  | "expr" :: kind :: label :: ints :: bools :: envs :: toks =>
+    out.putStrLn ((BodyDrv.reply useSpec kind label ints bools envs toks).getD "bad-op")
+    loop useSpec h out cur bad
   | ["schema", n] => loop useSpec h out (some { name := n, types := [], entities := [] }) false
   | ["end"] =>
     match cur, bad with
